@@ -474,7 +474,24 @@ func lifeEngine(rng *Rng, n int, out *Out, args map[string]string) {
 				out.Oracle("C18", "file descriptors: %d with the server idle, %d after the sessions of a batch ended", f0, f1)
 			}
 			out.Op("life batch", fmt.Sprintf("alive panics=%d leaked-goroutines=%d leaked-fds=%d serving=%s # sessions=%d conc=%d", panics, max(0, g1-g0), max(0, f1-f0), serving, k, conc))
-			c.d.call("events")
+			// what the service layer handed to the metrics for these sessions must not carry a
+			// client's address: statuses and drain results become label values (C20)
+			if evs, err := c.d.call("events"); err == nil {
+				for _, e := range parseEvents(evs) {
+					host, port, perr := net.SplitHostPort(e.remote)
+					if perr != nil {
+						continue
+					}
+					for _, v := range []string{e.arg, e.extra} {
+						if e.kind == "tcpauth" || e.kind == "udpadd" {
+							continue // arg is the access key id
+						}
+						if v != "" && (strings.Contains(v, host) || strings.Contains(v, ":"+port)) {
+							out.Oracle("C20", "a value reported to the metrics for a %s of client %s contains the client's address: %q", e.kind, e.remote, v)
+						}
+					}
+				}
+			}
 		}
 		if !dead {
 			ans, err := d.call("stop")
